@@ -21,8 +21,9 @@
    tid picks the trace, l is the next event.  Unlogged item-local state (which of two identical
    items stepped, which fetch_used a block belongs to) makes the trace spec branch, so a dead
    end is not by itself a rejection: a trace is ACCEPTED iff some branch consumes it completely
-   (Done is the only step at the end), and for every consumed trace TLC prints the verdict --
-   the set Failures(view) computed from Expected, the leftover / double-work flags -- as JSON.
+   (Done is the only step at the end), and for every consumed trace TLC prints the end verdict
+   (leftover / double-work flags).  Independently of the events, TLC prints for every trace the
+   set Failures(view) computed from Expected (EmitFinal) -- Complete on the read-back archive.
    A trace for which no verdict is printed was REJECTED: no behaviour of Fetcher.tla matches the
    run.  The harness then re-runs that trace alone (EmitProgress gives the deepest event any
    branch reached, Diagnose names the post-condition that fails there). *)
@@ -78,6 +79,9 @@ ItemAction(it) ==
 TrStep ==
   /\ l <= Len(Tr.ev) /\ Ev.t = "step"
   /\ Chk(\E it \in DOMAIN items : it.k = Ev.k /\ it.a = Ev.a /\ it.h = Ev.h, "no such work item exists in the model at this point")
+  /\ \A it \in DOMAIN items :
+       (it.k = "UB" /\ it.k = Ev.k /\ it.a = Ev.a /\ it.pc = "r1" /\ ~MoreAfter(it.off, RL, UBCount(it)))
+         => Chk(IsPermOf(Ev.ord, UBFresh(it)), "the images the block enqueues differ from the images of the complete (merged) answer that are not yet scheduled")
   /\ \E it \in DOMAIN items : it.k = Ev.k /\ it.a = Ev.a /\ it.h = Ev.h /\ ItemAction(it)
   /\ PostOk
   /\ Advance
@@ -111,12 +115,15 @@ ViewOf(tr) ==
                [file |-> tr.final.view.imgs[j].file, desc |-> tr.final.view.imgs[j].desc,
                 info |-> tr.final.view.imgs[j].info, authors |-> Au(tr.final.view.imgs[j].authors)]]]
 
-\* C11 on the implementation's archive; evaluated (and printed) once per consumed trace
+\* C11 on the implementation's archive, from the wiki, the book and the read-back view alone:
+\* evaluated (and printed) once per trace, whether or not its events are accepted
+Verdict1 ==
+  [kind |-> "final", id |-> Tr.id,
+   failures |-> IF Tr.final.status = "done" THEN Failures(ViewOf(Tr)) ELSE {}]
+EmitFinal == l = 1 => PrintT("@@" \o ToJson(Verdict1))
+\* what the accepted behaviour says: printed once per branch that consumes the whole trace
 Verdict ==
-  [tid |-> tid,
-   id |-> Tr.id,
-   phase |-> phase,
-   failures |-> IF phase = "done" THEN Failures(ViewOf(Tr)) ELSE {},
+  [kind |-> "end", id |-> Tr.id, phase |-> phase,
    leftovers |-> phase = "failed",
    doublework |-> dup,
    modelfailures |-> IF phase = "done" THEN Failures(ModelView) ELSE {}]
